@@ -72,6 +72,18 @@ def make_arm_spec():
     return scen.spec_of([A, B, Cb], data_blocks=[DD], target="arm64-elf")
 
 
+def make_bare_spec(mode):
+    """no symbolic expression and no annotation on input: the offset-keyed tables start out empty or absent and only
+    patches bring entries; the edited blocks are not the first ones of their interval"""
+    A = scen.code_block("A", [1], None, f="f", e=True)
+    B = scen.code_block("B", [2, 3], None, f="f")
+    Cb = scen.code_block("C", [4], ["ret"], f="f")
+    DD = scen.data_block("DD", [0xD1, 0xD2])
+    sp = scen.spec_of([A, B, Cb, DD])
+    sp["tables"] = {"symbolicExpressionSizes": mode, "comments": mode, "padding": mode}
+    return sp
+
+
 def byte_offsets(spec):
     isa_ = Lg.isamod.TARGETS[spec["target"]][0]
     out = []
@@ -151,6 +163,8 @@ def tasks(tier):
     t = []
     n = BOUNDS[tier]["set_size"]
     t.append(("rich", "arm64", False, [], n))
+    for mode in ("empty", "absent"):
+        t.append(("rich", "bare-" + mode, False, [], n))
     for variant in ("separate-data", "data-in-text"):
         for pie in (False, True):
             base = make_spec(variant, pie)
@@ -175,7 +189,10 @@ def task_group(task):
 def run_task(task):
     mode, variant, pie, placement, n = task
     res = TaskResult()
-    spec = make_arm_spec() if variant == "arm64" else annotate(make_spec(variant, pie), [tuple(p) for p in placement])
+    if variant.startswith("bare-"):
+        spec = make_bare_spec(variant[5:])
+    else:
+        spec = make_arm_spec() if variant == "arm64" else annotate(make_spec(variant, pie), [tuple(p) for p in placement])
     atoms = atoms_for(spec, rich=(mode == "rich"))
     inp = Lg.flatten(spec, Lg.tokens_of(spec), set())
     for mods in scen.mod_sets(spec, atoms, n, orders="same-offset"):
